@@ -7,6 +7,7 @@ package main
 // with the symbolic run of HcModel/SpecController.lean over the labels regenerated from /repo.
 
 import (
+	"time"
 	"bytes"
 	"encoding/json"
 	"fmt"
@@ -45,8 +46,12 @@ func randomValidPin(r *rand.Rand) string {
 	}
 }
 
-func randomCtrlID(r *rand.Rand) string {
-	switch r.Intn(6) {
+func randomCtrlID(r *rand.Rand, kind int) string {
+	switch kind % 8 {
+	case 6: // white space at the ends is part of the identifier
+		return []string{" lead", "trail ", "\ttab\n", "\u00a0nbsp\u00a0", "\u3000wide", " "}[r.Intn(6)] + fmt.Sprint(r.Intn(10))
+	case 7:
+		return fmt.Sprint(r.Intn(10)) + []string{" ", "\n", "\r\n", "\x00", "\u2028"}[r.Intn(5)]
 	case 0:
 		return fmt.Sprintf("%08X-%04X-%04X-%04X-%012X", r.Uint32(), r.Intn(65536), r.Intn(65536), r.Intn(65536), r.Int63n(1<<48))
 	case 1:
@@ -72,20 +77,20 @@ func checkC04(c *Ctx) {
 		"The outcome vector is diffed with the symbolic run of the Lean model")
 	c.Assume("conformance is relative to the transcription of the HAP constants in HcModel/SpecController.lean and ref_crypto.go; " +
 		"SRP values A, B, S enter M1/M2/K in minimal big-endian form (Stanford reference; DESIGN.md §6 C04 limits)")
-	n := c.Pick(6, 60)
+	n := c.Pick(16, 96)
 	model := c.Model([]string{"spec run 1", "spec run 0"})
-	for i := 0; i < n; i++ {
+	parallel(n, func(i int) {
 		id := c.CaseID("e2e", i)
 		if c.Skip(id) {
-			continue
+			return
 		}
 		r := c.CaseRng("e2e", i)
 		codeOk := i%3 != 2
-		c04Run(c, id, r, codeOk, c.Thorough() && i%10 == 5, i%2 == 0, model)
-	}
+		c04Run(c, id, r, i, codeOk, c.Thorough() && i%10 == 5, i%2 == 0, model)
+	})
 }
 
-func c04Run(c *Ctx, id string, r *rand.Rand, codeOk, forceLeadingZeroA, segmented bool, model []string) {
+func c04Run(c *Ctx, id string, r *rand.Rand, idx int, codeOk, forceLeadingZeroA, segmented bool, model []string) {
 	pin := randomValidPin(r)
 	ctrlPin := pin
 	if !codeOk {
@@ -93,7 +98,7 @@ func c04Run(c *Ctx, id string, r *rand.Rand, codeOk, forceLeadingZeroA, segmente
 			ctrlPin = randomValidPin(r)
 		}
 	}
-	ctrlID := randomCtrlID(r)
+	ctrlID := randomCtrlID(r, idx*3+idx/8) // every kind of identifier with a right and with a wrong code
 	input := map[string]interface{}{"pin": pin, "controller_pin": ctrlPin, "controller_id": ctrlID, "code_ok": codeOk}
 	sw := accessory.NewSwitch(accessory.Info{Name: "Sw " + fmt.Sprint(r.Intn(100)), SerialNumber: strings.Repeat("S", r.Intn(3000))})
 	dir := c.ScratchDir()
@@ -240,6 +245,56 @@ func c04Run(c *Ctx, id string, r *rand.Rand, codeOk, forceLeadingZeroA, segmente
 			}
 			c.Hist(fmt.Sprintf("encrypted request bytes<=%d", bucketLen2(total)))
 			reached = true
+		}
+	}
+	if vr.Shared != nil && keys {
+		// a record that straddles the end of the previous exchange: request A and the first bytes of the record that carries
+		// request B arrive together; the rest of B only after A has been answered (net/http aborts its pending read in between)
+		for _, cut := range []int{1, 2, 3, 20} {
+			a := cl2.sess.Encrypt([]byte("GET /characteristics?id=1.2 HTTP/1.1\r\nHost: acc.local\r\n\r\n"))
+			b := cl2.sess.Encrypt([]byte("GET /accessories HTTP/1.1\r\nHost: acc.local\r\n\r\n"))
+			cl2.conn.Write(append(append([]byte{}, a...), b[:cut]...))
+			ma, err := cl2.next(cl2.timeout)
+			if err != nil || ma == nil {
+				keys = false
+				c.Violate("encrypted request of a verified specification controller is not served", id, map[string]interface{}{"run": input, "straddle": "request A + first bytes of the next record"}, "answer to A", fmt.Sprint(err, ma))
+				break
+			}
+			time.Sleep(3 * time.Millisecond)
+			cl2.conn.Write(b[cut:])
+			mb, err := cl2.next(cl2.timeout)
+			if err != nil || mb == nil || mb.Status != 200 {
+				keys = false
+				c.Violate("a record whose first bytes arrived together with the previous request is lost (the verified controller gets no answer)", id,
+					map[string]interface{}{"run": input, "first_bytes_of_record_sent_early": cut}, "200", fmt.Sprint(err, mb))
+				break
+			}
+			c.Hist("straddling record")
+		}
+	}
+	if codeOk && sr.ErrAt == "" && keys {
+		// the accessory is restarted on the same storage: same identity, and the pairing still verifies
+		cl.Close()
+		if cl2 != nil {
+			cl2.Close()
+		}
+		acc.Stop()
+		sw2 := accessory.NewSwitch(accessory.Info{Name: sw.Info.Name.GetValue(), SerialNumber: sw.Info.SerialNumber.GetValue()})
+		acc2, err := startE2E(dir, pin, false, sw2.Accessory)
+		if err != nil {
+			c.Violate("transport does not start again on its own storage", id, input, "started", err.Error())
+		} else {
+			if cl3, err := acc2.Dial(); err == nil {
+				vr3 := refPairVerify(r, cl3.Post(), ident, sr.AccLTPK)
+				if vr3.Shared == nil || !vr3.M2SigOK {
+					keys = false
+					c.Violate("after a restart of the accessory on the same storage the paired specification controller cannot complete pair-verify (accessory identity or key changed)", id, input,
+						"verified under the long-term key learned at pair-setup", vr3.ErrAt)
+				}
+				cl3.Close()
+				c.Hist("verify after restart")
+			}
+			acc2.Stop()
 		}
 	}
 	obs["keys"] = b01(keys)
